@@ -690,4 +690,52 @@ def r11_from_json_keeps_members(a, tier):
     return rep
 
 
-RULES = [r_chain, r1_registry, r2_fields, r3_string_images, r4_cycles, r5_state_keys, r6_exports, r7_source_literals, r8_structure, r9_node_state, r10_generated_parser_copies_the_model, r11_from_json_keeps_members]
+def r12_link_rebinds(a, tier):
+    """a grammar built over rule objects that already belonged to another grammar (the reload path builds two) owns them afterwards"""
+    from ..minieval import Unsupported
+    from ..modelinterp import Bound, Hook, ModelInterp, Stub
+    rep = RuleReport(
+        'C14.R12',
+        'a reloaded grammar owns its rules: Grammar.__from_json__ (and every Grammar(...) over existing rule objects) links nodes that were already '
+        'linked to another - temporary - grammar. Model.link(grammar), interpreted on stand-in nodes that are unlinked / linked to another grammar / '
+        'linked to the same grammar, with and without children, leaves every node and child referring to THE GRAMMAR IT WAS GIVEN (the weak reference '
+        'to the temporary grammar dies with it: `Call incorrectly initialized None` at the first parse of the reloaded model)',
+        floor=4,
+    )
+    G = 'tatsu.peg.base.Grammar'
+    link = a.ct.lookup('tatsu.peg.base.Model', 'link')
+    if link is None:
+        raise AnalysisError('C14.R12: Model.link not found')
+
+    class Ref:
+        def __init__(self, target):
+            self.target = target
+    g_old, g_new = Stub(G, name='old'), Stub(G, name='new')
+
+    def referent(node):
+        r = node._attrs.get('_grammar_ref')
+        return r.target if isinstance(r, Ref) else r
+    for what, before in (('never linked', None), ('linked to another grammar', g_old), ('linked to this grammar', g_new)):
+        for with_child in (False, True):
+            child = Stub('tatsu.peg.basic.Token', token='x', _grammar_ref=(Ref(before) if before is not None else None))
+            child._attrs['children'] = Hook(lambda: [])
+            node = Stub('tatsu.peg.syntax.Sequence', sequence=[child], _grammar_ref=(Ref(before) if before is not None else None))
+            node._attrs['children'] = Hook(lambda child=child, with_child=with_child: [child] if with_child else [])
+            it = ModelInterp(a, {'weakref': Hook(None, ref=Hook(Ref))})
+            it.methods = lambda recv, name, args, kwargs: (recv.target if isinstance(recv, Ref) and name == '__call__' else NotImplemented)
+            try:
+                it.call_bound(Bound(node, link), [g_new], {})
+            except Unsupported as e:
+                raise AnalysisError(f'C14.R12: cannot interpret Model.link: {e}') from e
+            ok = referent(node) is g_new and (not with_child or referent(child) is g_new)
+            rep.add({'node': what, 'with_child': with_child, 'node_refers_to_given_grammar': referent(node) is g_new,
+                     'child_refers_to_given_grammar': (referent(child) is g_new) if with_child else None, 'ok': ok})
+            if not ok:
+                rep.fail(link.qualname, f'link:{what}:{"child" if with_child else "leaf"}', f'Model.link(grammar) on a node that was {what}' + (' (with a child)' if with_child else '') +
+                         f': afterwards the node refers to {"the given grammar" if referent(node) is g_new else "another grammar / nothing"}' +
+                         (f', its child to {"the given grammar" if referent(child) is g_new else "another grammar / nothing"}' if with_child else '') +
+                         ': a model rebuilt over existing rule objects (JSON reload) keeps pointing at the grammar that was thrown away', link.loc)
+    return rep
+
+
+RULES = [r_chain, r1_registry, r2_fields, r3_string_images, r4_cycles, r5_state_keys, r6_exports, r7_source_literals, r8_structure, r9_node_state, r10_generated_parser_copies_the_model, r11_from_json_keeps_members, r12_link_rebinds]
